@@ -253,7 +253,7 @@ def an_C14_maps(mod, name, paths, fq):
             # its PERF_THD_Data record again): key and value must be that record's declared words
             for wr in wt:
                 ok = False
-                if len(wr) == 2:
+                if len(wr) == 2 and not isinstance(wr[0], str):
                     kt, vt = wr
                     for dname, (kspec, vspec) in C14_THREAD_DECLARATIONS.items():
                         if kspec == 'tid':
